@@ -308,6 +308,11 @@ func (l *PartitionLog) Flush(ctx context.Context) error {
 		l.flushCond.Wait()
 	}
 	artifact, err := l.prepareFlush()
+	// With nothing to flush and no flush in flight, every assigned offset is
+	// already in a committed segment. Capture that end offset now, under the
+	// same lock hold: reading nextOffset later would include batches appended
+	// (and still only buffered) in the meantime.
+	current := l.nextOffset - 1
 	l.mu.Unlock()
 	if err != nil {
 		return err
@@ -321,9 +326,6 @@ func (l *PartitionLog) Flush(ctx context.Context) error {
 	if l.onFlush != nil {
 		target := artifact
 		if target == nil {
-			l.mu.Lock()
-			current := l.nextOffset - 1
-			l.mu.Unlock()
 			if current >= 0 {
 				target = &SegmentArtifact{LastOffset: current}
 			}
